@@ -608,6 +608,9 @@ impl Scenario for Death {
             v.push(json!({"fault": "none", "bound": bound}));
             v.push(json!({"fault": "eof", "at": 200, "bound": bound}));
         }
+        for k in 0..3 {
+            v.push(json!({"fault": "clientexception", "bound": 16, "long": k}));
+        }
         // the same ends reached through drop instead of close
         for fault in ["silence", "serverclose", "clientexception", "none"] {
             v.push(json!({"fault": fault, "bound": 16, "drop": true}));
@@ -655,6 +658,13 @@ impl Scenario for Death {
             "malformed" => broker.corrupt_frame = Some(p["frame"].as_u64().unwrap() as usize),
             "silence" => broker.silent_after_handshake = true,
             "serverclose" => broker.pushes.push(Push::new("conn-close", vec![conn_close_frame(320, "going down")]).after_frames(5)),
+            "clientexception" if !p["long"].is_null() => {
+                // the offending frame's description (quoted in the client's Close) is longer than a
+                // short string and made of 2- and 3-byte characters, at every alignment
+                let k = p["long"].as_u64().unwrap() as usize;
+                let f = AMQPFrame::Method(1, AMQPClass::Basic(amq_protocol::protocol::basic::AMQPMethod::Publish(amq_protocol::protocol::basic::Publish { ticket: 0, exchange: format!("{}{}", "a".repeat(k), "\u{e9}".repeat(100)), routing_key: "\u{4e16}\u{754c}".repeat(20), mandatory: false, immediate: false })));
+                broker.pushes.push(Push::new("illegal-publish", vec![f]).after_frames(5))
+            }
             "clientexception" => broker.pushes.push(
                 Push::new("tx-select-ok", vec![AMQPFrame::Method(1, AMQPClass::Tx(amq_protocol::protocol::tx::AMQPMethod::SelectOk(amq_protocol::protocol::tx::SelectOk {})))]).after_frames(5),
             ),
@@ -696,7 +706,7 @@ impl Scenario for Death {
         }
         let got_closeok = o.io_events.iter().any(|e| matches!(e, IoEvent::Frame(AMQPFrame::Method(0, AMQPClass::Connection(pconnection::AMQPMethod::CloseOk(_))))));
         let got_server_close = o.io_events.iter().any(|e| matches!(e, IoEvent::Frame(AMQPFrame::Method(0, AMQPClass::Connection(pconnection::AMQPMethod::Close(_))))));
-        let got_tx = o.io_events.iter().any(|e| matches!(e, IoEvent::Frame(AMQPFrame::Method(_, AMQPClass::Tx(_)))));
+        let got_tx = o.io_events.iter().any(|e| matches!(e, IoEvent::Frame(AMQPFrame::Method(_, AMQPClass::Tx(_))) | IoEvent::Frame(AMQPFrame::Method(_, AMQPClass::Basic(amq_protocol::protocol::basic::AMQPMethod::Publish(_))))));
         let want: Vec<String> = match fault {
             "eof" => vec!["Err(UnexpectedSocketClose)".into()],
             "readerr" | "readerr-interrupted" => vec!["Err(IoErrorReadingSocket)".into()],
